@@ -68,7 +68,7 @@ class C16(Check):
         for lines, unis in worlds(tier, rng, real, ["D", "U", "DD", "UU"] + (["X"] if rng.random() < 0.1 else [])):
             qs = []
             for u in unis:
-                for rf in ("tok", "repr"):
+                for rf in ("tok", "repr", "dup"):
                     for s in ("-", "0", "2", "4"):
                         qs.append("plain V%d %s %s" % (u, rf, s))
             yield run(real, lines + qs)
@@ -86,7 +86,10 @@ class C16(Check):
         code = lambda x: 0 if x is None else real.vname(x) + 1  # noqa: E731
         key = None if t[3] == "-" else (lambda x, k=int(t[3]): (code(x) * (k + 1)) % 7)
         pre_ = "r" if t[2] == "repr" else "v"
-        r = lambda x: ("None" if pre_ == "r" else "none") if x is None else "%s%d" % (pre_, real.vname(x))  # noqa: E731
+        if t[2] == "dup":
+            r = lambda x: "none" if x is None else "w%d" % (real.vname(x) % 2)  # noqa: E731
+        else:
+            r = lambda x: ("None" if pre_ == "r" else "none") if x is None else "%s%d" % (pre_, real.vname(x))  # noqa: E731
         verts = sorted(u.vertices, key=key) if key else u.vertices
         want = []
         caching = Vertex.NEIGHBOR_CACHING
